@@ -90,6 +90,9 @@ structure Transform where
   /-- `true`: `NewManyCollection`, one output per element of `i.outs` (that element is the output
       key, so keys can move between parents); `false`: `NewCollection`, one output keyed like the input -/
   multi   : Bool := false
+  /-- `NewCollection` whose output key is NOT the input's key: `val/<i.val>` (one-to-one, but the key
+      moves to another parent when another input takes the value) -/
+  byVal   : Bool := false
   /-- the fetches performed on the secondary collection, in order -/
   fetches : List FetchSpec := []
   /-- `true`: no output at all while the first fetch returns nothing -/
@@ -128,7 +131,8 @@ def gated (T : Transform) (sec : List Obj) (i : Obj) : Bool :=
     | [] => false
     | f :: _ => (fetch sec i f).isEmpty
 
-def outKeys (T : Transform) (i : Obj) : List Key := if T.multi then i.outs else [i.key]
+def outKeys (T : Transform) (i : Obj) : List Key :=
+  if T.multi then i.outs else if T.byVal then ["val/" ++ i.val] else [i.key]
 
 /-- The transformation function: outputs `(key, value)` of input `i` given the secondary collection. -/
 def transform (T : Transform) (sec : List Obj) (i : Obj) : List (Key × Val) :=
